@@ -1,0 +1,24 @@
+//go:build verif
+
+// Contracts for the deductive checker in /verif (read only with -tags verif).
+
+package pkcs7
+
+//@ func readObject property C13,C16
+//@   requires 0 <= offset
+//@   ensures err == nil ==> offset < result1 && result1 <= len(ber)
+//@   ensures err == nil ==> result0 != nil
+//@   modifies nothing
+//@   decreases len(ber) - offset
+//@   loop 1 invariant tagStart < offset && offset < len(ber)
+//@   loop 1 decreases len(ber) - offset
+//@   loop 2 invariant 0 <= i && i <= numberOfBytes && 0 <= length && length < pow2(8 * i)
+//@   loop 2 invariant offset + numberOfBytes - i <= len(ber) && tagStart < offset
+//@   loop 2 decreases numberOfBytes - i
+//@   loop 3 invariant tagStart < offset && offset <= len(ber) && objof(subObjects) <= 0
+//@   loop 3 decreases len(ber) - offset
+
+//@ func isIndefiniteTermination property C13,C16
+//@   requires 0 <= offset && offset <= len(ber)
+//@   ensures err == nil ==> 0 <= len(ber) - offset - 2
+//@   modifies nothing
